@@ -1,4 +1,4 @@
-import Slock.Proofs.Engine2SimQuiet
+import Slock.Proofs.Engine2SimUpdOps
 import Slock.Properties.C01
 /-!
 # EngineSim — the record-level model (M-ENGINE stage 2) against the stage-1 model, through `abs`
@@ -109,5 +109,95 @@ theorem admission_contract_transfers {s : Engine2.DB} (h : Reachable2 s) (c : En
       refine ⟨x, rfl, ?_⟩
       rw [← hcur] at hb1 hb2
       exact ⟨hb1, hb2⟩
+
+/-! ### the branches that change the stage-1 state
+
+Each is proved under `SimInv` of the key record it works on: facts about reachable states that are not (yet) established as invariants
+of the record-level model — `wq` — or that are invariants of STAGE 1 and arrive through the simulation itself — `ki`, `fl`
+(`Engine.KeyInv`, `Engine.Quiet.flag`). -/
+
+structure SimInv (k : Engine2.Key) : Prop where
+  /-- wait-queue entries are distinct records; a live request is not in the holder queue and carries its command's connection -/
+  wq : WQ k
+  /-- stage 1's `locked = Σ depth` -/
+  ki : Engine.KeyInv (Engine2.Key.abs k)
+  /-- stage 1's `waited ⇒ something is queued` -/
+  fl : (Engine2.Key.abs k).waited = true → (Engine2.Key.abs k).waiters ≠ []
+  /-- the live holds carry pairwise distinct identities (the wheel sequence number of their grant) -/
+  hd : ((Engine2.Key.abs k).holders.map (·.hid)).Nodup
+  /-- a hold's expiry-wheel entry caches the hold's back-off counter -/
+  ck : CkSync k
+
+/-- **The wake pass.** `wakeUpWaitLocks` on a linked key record — pop tombstoned heads, test the live head with `doLock`, grant it (hold
+or no hold), repeat; clear `waited` and reclaim the key record when the queue runs empty — is stage 1's `wake` on the stage-1 view:
+same counters / sequence number, same replies in the same order, same key afterwards (an EMPTY key if the record was reclaimed). -/
+theorem wake_pass_refines (w : Engine2.W) (g : Engine2.Good w) (cl : Engine2.CurLive w.k) (hg : w.gone = false) (cn : Engine2.CurNone w.k)
+    (q : WQ w.k) (a : Engine.DB) (hs : Scal a w.db) (ki : Engine.KeyInv (Engine2.Key.abs w.k)) :
+    Scal (Engine.wake a (Engine2.Key.abs w.k) (w.out.map (·.r))).1 w.wake.db ∧
+    Loc w.wake (Engine.wake a (Engine2.Key.abs w.k) (w.out.map (·.r))).2.1 ∧
+    w.wake.out.map (·.r) = (Engine.wake a (Engine2.Key.abs w.k) (w.out.map (·.r))).2.2 :=
+  sim_wake w g cl hg cn q a hs ki _ rfl
+
+/-- **LOCK, direct grant (with or without a hold), then the wake pass**: the record-level step is stage 1's step on `abs`. -/
+theorem sim_lock_grant {s : Engine2.DB} (h : Reachable2 s) (c : Engine.Cmd)
+    (hcell : (s.getKey c.key).cell = none)
+    (hp : has c.tflag Engine.TF_PRIORITY = true →
+      Engine.checkWaitPriority (Engine2.Key.abs (s.getKey c.key)) c = Engine2.checkWaitPriority (s.getKey c.key) c)
+    (hi : SimInv (s.getKey c.key))
+    (hb : Engine2.classifyLock s c none = .grant ∨ Engine2.classifyLock s c none = .grantNoHold) :
+    Equiv (Engine2.abs (Engine2.opLock s c none).1) (Engine.opLock (Engine2.abs s) c).1 ∧
+    (Engine2.opLock s c none).2.map (·.r) = (Engine.opLock (Engine2.abs s) c).2 := by
+  have hq := reachable_dbq h
+  have hcl := lock_branch_refines h c hcell hp
+  unfold Engine.opLock Engine2.opLock
+  simp only []
+  rcases hb with hb | hb
+  · rw [hb] at hcl ⊢
+    rw [hcl]
+    exact Sim.sim_lock_grant s hq c none hb hi.wq hi.ki
+  · rw [hb] at hcl ⊢
+    rw [hcl]
+    exact Sim.sim_lock_grantNoHold s hq c none hb hi.wq hi.ki hi.fl
+
+/-- **UNLOCK of a hold — one level of a re-entrant hold, or the release (record freed when nothing refers to it, key record reclaimed
+when it was the last), then the wake pass**: the record-level step is stage 1's step on `abs`. -/
+theorem sim_unlock_hold {s : Engine2.DB} (h : Reachable2 s) (c : Engine.Cmd) (data : Option Engine2.Bytes)
+    (hi : SimInv (s.getKey c.key))
+    (hb : (∃ x c', Engine2.classifyUnlock s c = .dec x c') ∨ (∃ x c', Engine2.classifyUnlock s c = .release x c')) :
+    Equiv (Engine2.abs (Engine2.opUnlock s c data).1) (Engine.opUnlock (Engine2.abs s) { c with mgr := s.hasKey c.key }).1 ∧
+    (Engine2.opUnlock s c data).2.map (·.r) = (Engine.opUnlock (Engine2.abs s) { c with mgr := s.hasKey c.key }).2 := by
+  have hq := reachable_dbq h
+  have hcl := unlock_branch_refines h c
+  unfold Engine.opUnlock Engine2.opUnlock
+  simp only []
+  rcases hb with ⟨x, c', hb⟩ | ⟨x, c', hb⟩
+  · rw [hb] at hcl ⊢
+    rw [hcl]
+    exact Sim.sim_unlock_dec s hq c data x c' hb hi.wq hi.ki (nodup_of_hid hi.hd) _ _
+  · rw [hb] at hcl ⊢
+    rw [hcl]
+    exact Sim.sim_unlock_release s hq c data x c' hb hi.wq hi.ki hi.hd hi.fl _ _
+
+/-- **LOCK on a held LockId that changes the hold — update with different terms, or re-entrant lock — then the wake pass**: the
+record-level step (`UpdateLockedLock`, long-table move, journal) is stage 1's `updateHold` step on `abs`. -/
+theorem sim_lock_hold {s : Engine2.DB} (h : Reachable2 s) (c : Engine.Cmd)
+    (hcell : (s.getKey c.key).cell = none)
+    (hp : has c.tflag Engine.TF_PRIORITY = true →
+      Engine.checkWaitPriority (Engine2.Key.abs (s.getKey c.key)) c = Engine2.checkWaitPriority (s.getKey c.key) c)
+    (hi : SimInv (s.getKey c.key))
+    (hb : (∃ x, Engine2.classifyLock s c none = .update x) ∨ (∃ x, Engine2.classifyLock s c none = .relock x)) :
+    Equiv (Engine2.abs (Engine2.opLock s c none).1) (Engine.opLock (Engine2.abs s) c).1 ∧
+    (Engine2.opLock s c none).2.map (·.r) = (Engine.opLock (Engine2.abs s) c).2 := by
+  have hq := reachable_dbq h
+  have hcl := lock_branch_refines h c hcell hp
+  unfold Engine.opLock Engine2.opLock
+  simp only []
+  rcases hb with ⟨x, hb⟩ | ⟨x, hb⟩
+  · rw [hb] at hcl ⊢
+    rw [hcl]
+    exact Sim.sim_lock_update s hq c none x hb hi.wq hi.ki hi.hd hi.ck
+  · rw [hb] at hcl ⊢
+    rw [hcl]
+    exact Sim.sim_lock_relock s hq c none x hb hi.wq hi.ki hi.hd hi.ck
 
 end Slock.SimP
